@@ -309,7 +309,7 @@ pub fn run_query(
     // ...seeded probes within +-40 s of entries of either table (the full +-40 s sweep runs once
     // per distinct table per batch)...
     for _ in 0..8 {
-        let ts = if same || rng.chance(1, 2) {
+        let ts = if !table.is_empty() && (same || rng.chance(1, 2)) {
             rng.pick(table).0
         } else {
             rng.pick(shipped).0
